@@ -452,5 +452,23 @@ def register(g):
         write('FilterLoop.lean', 'import RjModel.Model.Regex\nnamespace Rj.Generated\n' +
               f'def applyFiltersSkel : ApplyFiltersSkel := ⟨{b(root)}, {g(dd, "Include")}, {g(dd, "Exclude")}, {g(dd, "None")}, {g(aa, "Include")}, {g(aa, "Exclude")}, {b(shape)}⟩\nend Rj.Generated\n')
 
+    def path_desc():
+        """RemotePathDesc::from_str: the arms of the match on `s.split_once(':')`, in particular the guard of the Windows drive-letter arm"""
+        import re as _re
+        fe = strip_comments(read('src/boss_frontend.rs'))
+        m = _re.search(r'impl\s+std::str::FromStr\s+for\s+RemotePathDesc\s*\{', fe)
+        body = fn_body(fe[m.start():], 'from_str') if m else ''
+        body = body or ''
+        arms = _re.findall(r'(None|Some\(\((\w+)\s*,\s*(\w+)\)\))\s*(?:if\s+(.*?))?\s*=>\s*\{', body[:body.find('split_once(\'@\')')] if 'split_once(\'@\')' in body else body)
+        guards = [_re.sub(r'\s+', '', a[3]) for a in arms if a[3]]
+        guard = guards[0] if len(guards) == 1 else ''
+        binders = [(a[1], a[2]) for a in arms if a[3]]
+        if guard and binders:
+            guard = _re.sub(r'\b' + binders[0][0] + r'\b', 'A', guard); guard = _re.sub(r'\b' + binders[0][1] + r'\b', 'B', guard)
+        n_split = len(_re.findall(r'split_once\(', body))
+        if not guard: status['path-desc'] = 'RemotePathDesc::from_str: drive-letter arm not recognised'
+        write('PathDesc.lean', 'namespace Rj.Generated\n/-- guard of the drive-letter arm of RemotePathDesc::from_str (white space removed, the two binders renamed A and B), and the number of `split_once` calls -/\n'
+              f'def pathDescDriveGuard : String := {lean_str(guard)}\ndef pathDescSplits : Nat := {n_split}\nend Rj.Generated\n')
+
     g_ = g
-    return {'apply_filters_skel': apply_filters_skel, 'decisions': decisions, 'run_skel': run_skel, 'link_socket': link_socket, 'session': session, 'defaults': defaults, 'skeletons': skeletons, 'sites': sites, 'shutdown': shutdown, 'panic_sites': panic_sites, 'walker': walker, 'slash_table': slash_table}
+    return {'path_desc': path_desc, 'apply_filters_skel': apply_filters_skel, 'decisions': decisions, 'run_skel': run_skel, 'link_socket': link_socket, 'session': session, 'defaults': defaults, 'skeletons': skeletons, 'sites': sites, 'shutdown': shutdown, 'panic_sites': panic_sites, 'walker': walker, 'slash_table': slash_table}
